@@ -89,7 +89,10 @@ def _report(run, res, lines):
             case["registration"] = _text(ev["reg"])
         if ev["e"] == "diff":
             values.append(ev["before_hi16"] * 65536 + ev["before_lo16"])   # the call made just before
-            values.reverse()
+            if values[0] < (1 << 24):
+                # state carried between calls is history: the replay calls the neighbourhood in
+                # ascending, descending and ascending order again (c14 probe)
+                values += list(range(max(0, values[0] - 64), min((1 << 24) - 1, values[0] + 64) + 1))
         case["values"] = values
         case["explain"] = {
             "total": "the lookup panicked (the property requires a return for every 32-bit value)",
@@ -168,7 +171,8 @@ def check(run, probe_values=None):
     dev_samples, dev_values, dev_by_lead = [], set(), {}
     counts = {"t_some": 0, "t_none": 0, "t_panic": 0, "run": 0, "oor": 0, "s": 0, "again_diff": 0}
     sweep_some = 0
-    for res in vres:
+    # sample shards first (they hold the total / function_of_address events): the engine keeps the first 20 signatures
+    for res in sorted(vres, key=lambda q: os.path.basename(q["path"])):
         run.add_tlc(res["r"])
         n_events += res["n"]
         base = os.path.basename(res["path"])
